@@ -1,0 +1,18 @@
+//go:build !verif
+// +build !verif
+
+package tensor
+
+// Verification hooks (see /verif/DESIGN.md §4). With the `verif` build tag off
+// these are empty and are inlined away.
+
+const (
+	verifBorrowInts = iota
+	verifReturnInts
+	verifBorrowDense
+	verifReturnDense
+)
+
+func verifPoolEvent(kind int, ptr uintptr, l, c int) {}
+func verifIntsPtr(is []int) uintptr                  { return 0 }
+func verifDensePtr(t *Dense) uintptr                 { return 0 }
